@@ -1,4 +1,5 @@
 import Pcore.Proofs.ValueRT
+import Pcore.Proofs.CallableArgs
 import Pcore.Model.Types
 /-!
 Layer 4 of C05 (resolution) for the modelled fragment: the expression a type prints (`tyExpr`) is a printable
@@ -77,7 +78,9 @@ def WFTy (env : Env) : Ty → Prop
      | none => ts ≠ []
      | some r => inI64 r.1 r.2 ∧ 0 ≤ r.2)
   | .struct ms => WFMs env ms
-  | .callable ps ret blk => ps = none ∧ ret = none ∧ blk = none
+  | .callable none ret blk => ret = none ∧ blk = none
+  | .callable (some (ts, sz)) ret blk =>
+    WFTys env ts ∧ CallableShape ts sz ret.isSome blk.isSome ∧ WFOpt env ret ∧ WFOpt env blk ∧ blk.all Ty.isBlock = true
   | .runtime rt name pat =>
     (rt = [] → name = [] ∧ pat = none) ∧ (rt = "go".toList → name = []) ∧
     (match pat with
@@ -87,6 +90,9 @@ def WFTy (env : Env) : Ty → Prop
 def WFTys (env : Env) : List Ty → Prop
   | [] => True
   | t :: ts => WFTy env t ∧ WFTys env ts
+def WFOpt (env : Env) : Option Ty → Prop
+  | none => True
+  | some t => WFTy env t
 /-- Struct members: a non-empty name, any optionality of the key, a well-formed value type (duplicate names are allowed:
     the creator keeps them) -/
 def WFMs (env : Env) : List (Str × Bool × Ty) → Prop
@@ -154,6 +160,18 @@ theorem litL_floatParams (env : Env) (lo : Nat) (lot : Str) (hi : Nat) (hit : St
     split
     · exact ⟨h1.2, trivial⟩
     · rename_i hhi; rw [if_neg hhi] at h2; exact ⟨h1.2, h2.2, trivial⟩
+
+theorem lit_callableVal (env : Env) (tp : List Val) (blk ret : Option Val) (h1 : LitL env tp) (h2 : ∀ v ∈ blk, Lit env v)
+    (h3 : ∀ v ∈ ret, Lit env v) : Lit env (callableVal tp blk ret) := by
+  have hpb : LitL env (tp ++ blk.toList) := by
+    apply litL_append env _ _ h1
+    cases blk with
+    | none => trivial
+    | some b => exact ⟨h2 b rfl, trivial⟩
+  unfold callableVal
+  cases ret with
+  | none => exact lit_tname env _ _ hpb
+  | some r => exact lit_tname env _ _ ⟨hpb, h3 r rfl, trivial⟩
 
 theorem lit_memberKey (env : Env) (n : Str) (o ov : Bool) : Lit env (memberKey n o ov) := by
   unfold memberKey
@@ -255,10 +273,25 @@ theorem lit_tyExpr (env : Env) : (t : Ty) → WFTy env t → Lit env (tyExpr t)
     split
     · trivial
     · exact ⟨litE_tyMembers env ms h, trivial⟩
-  | .callable ps ret blk, h => by
-    obtain ⟨rfl, rfl, rfl⟩ := h
-    simp only [tyExpr]
+  | .callable none ret blk, h => by
+    obtain ⟨rfl, rfl⟩ := h
+    simp only [tyExpr, tyExprOpt, callableVal, Option.toList, List.append_nil]
     exact lit_tname env _ _ trivial
+  | .callable (some (ts, sz)) ret blk, h => by
+    obtain ⟨hts, hshape, hret, hblk, _⟩ := h
+    have hsz : LitL env (tupleSizeVals ts.isEmpty sz) := by
+      unfold tupleSizeVals
+      cases sz with
+      | none => trivial
+      | some r =>
+        simp only
+        split
+        · trivial
+        · obtain ⟨h1, h2, h3, _⟩ := hshape.1
+          exact litL_sizeParams env r.1 r.2 ⟨h1, h2, h3⟩
+    have htp := litL_append env _ _ (litL_tyExprsNU env ts hts) hsz
+    simp only [tyExpr]
+    exact lit_callableVal env _ _ _ htp (lit_tyExprOpt env blk hblk) (lit_tyExprOpt env ret hret)
   | .runtime rt name pat, h => by
     obtain ⟨h1, h2, h3⟩ := h
     simp only [tyExpr]
@@ -287,6 +320,20 @@ theorem lit_tyExpr (env : Env) : (t : Ty) → WFTy env t → Lit env (tyExpr t)
 theorem litL_tyExprs (env : Env) : (ts : List Ty) → WFTys env ts → LitL env (tyExprs ts)
   | [], _ => trivial
   | t :: ts, h => ⟨lit_tyExpr env t h.1, litL_tyExprs env ts h.2⟩
+theorem lit_tyExprOpt (env : Env) : (o : Option Ty) → WFOpt env o → ∀ v ∈ tyExprOpt o, Lit env v
+  | none, _ => by simp [tyExprOpt]
+  | some t, h => by
+    intro v hv
+    simp only [tyExprOpt, Option.mem_def, Option.some.injEq] at hv
+    subst hv
+    exact lit_tyExpr env t h
+theorem litL_tyExprsNU (env : Env) : (ts : List Ty) → WFTys env ts → LitL env (tyExprsNU ts)
+  | [], _ => trivial
+  | t :: ts, h => by
+    simp only [tyExprsNU]
+    split
+    · exact litL_tyExprsNU env ts h.2
+    · exact ⟨lit_tyExpr env t h.1, litL_tyExprsNU env ts h.2⟩
 theorem litE_tyMembers (env : Env) : (ms : List (Str × Bool × Ty)) → WFMs env ms → LitE env (tyMembers ms)
   | [], _ => trivial
   | (n, o, t) :: ms, h => ⟨lit_memberKey env n o _, lit_tyExpr env t h.2.1, litE_tyMembers env ms h.2.2⟩
@@ -326,7 +373,12 @@ theorem exprOf_tyExpr_dtype (t : Ty) : ∃ n ps, exprOf (tyExpr t) = .dtype n ps
     · split <;> exact key _ _
   | array t lo hi => simp only [tyExpr]; split <;> exact key _ _
   | struct ms => simp only [tyExpr]; exact key _ _
-  | callable ps ret blk => cases ret <;> (unfold tyExpr; exact key _ _)
+  | callable ps ret blk =>
+    have kc : ∀ tp b r, ∃ n q, exprOf (callableVal tp b r) = .dtype n q := by
+      intro tp b r; unfold callableVal; cases r <;> exact key _ _
+    cases ps with
+    | none => simp only [tyExpr]; exact kc _ _ _
+    | some p => obtain ⟨ts, sz⟩ := p; simp only [tyExpr]; exact kc _ _ _
   | runtime rt name pat => simp only [tyExpr]; split <;> exact key _ _
   | hash k v lo hi =>
     simp only [tyExpr]
@@ -902,9 +954,53 @@ theorem resolve_tyExpr (env : Env) : (t : Ty) → WFTy env t → resolve env (ex
           | nil => simp at ha; subst ha; simp
           | cons t ts' => simp at ha; subst ha; simp
         simp [hflat, tupleBody_sized ts lo hi hin h0]
-  | .callable ps ret blk, h => by
-    obtain ⟨rfl, rfl, rfl⟩ := h
-    simp [tyExpr, resolve_tname, defaultOf]
+  | .callable none ret blk, h => by
+    obtain ⟨rfl, rfl⟩ := h
+    simp [tyExpr, tyExprOpt, callableVal, resolve_tname, defaultOf]
+  | .callable (some (ts, sz)) ret blk, h => by
+    obtain ⟨hts, hshape, hret, hblk, hisb'⟩ := h
+    have hisb : ∀ b ∈ blk, b.isBlock = true := by
+      intro b hb
+      cases blk with
+      | none => simp at hb
+      | some x => simp at hb; subst hb; simpa using hisb'
+    have hNU := resolveArgs_tyExprsNU env ts hts
+    have hsz : resolveArgs env (exprsOf (tupleSizeVals ts.isEmpty sz)) = some (cSizeArgs ts sz) := by
+      unfold tupleSizeVals cSizeArgs
+      cases sz with
+      | none => simp [exprsOf, resolveArgs]
+      | some r =>
+        simp only
+        split
+        · simp [exprsOf, resolveArgs]
+        · exact resolveArgs_sizeParams env r.1 r.2
+    have hb : resolveArgs env (exprsOf (tyExprOpt blk).toList) = some (cBlockArgs blk) := by
+      cases blk with
+      | none => simp [tyExprOpt, exprsOf, resolveArgs, cBlockArgs]
+      | some b =>
+        have := resolve_tyExpr env b hblk
+        simp [tyExprOpt, exprsOf, resolveArgs, resolveArg_ty, this, cBlockArgs]
+    have hpb : resolveArgs env (exprsOf (tyExprsNU ts ++ tupleSizeVals ts.isEmpty sz ++ (tyExprOpt blk).toList)) =
+        some (cArgs ts sz blk) := by
+      rw [exprsOf_append, exprsOf_append]
+      exact resolveArgs_append env _ _ _ _ (resolveArgs_append env _ _ _ _ hNU hsz) hb
+    cases ret with
+    | none =>
+      have hne := cArgs_ne_nil ts sz blk hshape
+      have hemp : (tyExprsNU ts ++ tupleSizeVals ts.isEmpty sz ++ (tyExprOpt blk).toList).isEmpty = false := by
+        cases hl : tyExprsNU ts ++ tupleSizeVals ts.isEmpty sz ++ (tyExprOpt blk).toList with
+        | nil =>
+          rw [hl] at hpb
+          simp only [exprsOf, resolveArgs, Option.some.injEq] at hpb
+          exact absurd hpb.symm hne
+        | cons v vs => rfl
+      simp only [tyExpr, tyExprOpt, callableVal, resolve_tname, hemp, Bool.false_eq_true, if_false, hpb, Option.bind, createK]
+      exact callableCreate_flat ts sz blk hshape hisb hne
+    | some r =>
+      have hr := resolve_tyExpr env r hret
+      simp only [tyExpr, tyExprOpt, callableVal, resolve_tname, List.isEmpty_cons, Bool.false_eq_true, if_false, exprsOf, exprOf,
+        resolveArgs, resolveArg, hpb, resolveArg_ty, hr, Option.map, Option.bind, createK]
+      exact callableCreate_ret ts sz blk r hshape hisb
   | .runtime rt name pat, h => resolve_runtime env rt name pat h
   | .typeRef s, _ => resolve_typeRef env s
   | .struct ms, h => by
@@ -921,6 +1017,14 @@ theorem resolveArgs_tyExprs (env : Env) : (ts : List Ty) → WFTys env ts →
   | [], _ => by simp [tyExprs, exprsOf, resolveArgs]
   | t :: ts, h => by
     simp [tyExprs, exprsOf, resolveArgs, resolveArg_ty, resolve_tyExpr env t h.1, resolveArgs_tyExprs env ts h.2]
+theorem resolveArgs_tyExprsNU (env : Env) : (ts : List Ty) → WFTys env ts →
+    resolveArgs env (exprsOf (tyExprsNU ts)) = some ((notUnitTys ts).map .ty)
+  | [], _ => by simp [tyExprsNU, exprsOf, resolveArgs, notUnitTys]
+  | t :: ts, h => by
+    simp only [tyExprsNU, notUnitTys]
+    split
+    · exact resolveArgs_tyExprsNU env ts h.2
+    · simp [exprsOf, resolveArgs, resolveArg_ty, resolve_tyExpr env t h.1, resolveArgs_tyExprsNU env ts h.2]
 theorem resolveEntries_tyMembers (env : Env) : (ms : List (Str × Bool × Ty)) → WFMs env ms →
     resolveEntries env (entriesOf (tyMembers ms)) = some (memberArgs ms)
   | [], _ => by simp [tyMembers, entriesOf, resolveEntries, memberArgs]
